@@ -9,9 +9,11 @@ CONSTANTS
   LVs = {"l1"}
   Variant = "intended"
   Broken = "none"
+  MapWindow = TRUE
   MaxPrints = 2
   MaxFree = 0
 VIEW view
+CONSTRAINT Canon
 INVARIANTS TypeOK ActiveExact TotalsExact Breakdowns NoDoubleCount MapLedger Ledger RegConservation CrossObject
 PROPERTIES PrintKeepsGauges
 CHECK_DEADLOCK FALSE
